@@ -102,6 +102,28 @@ def run(chk):
     from .C09 import run_initial_index
     run_initial_index(chk, GenEnv(chk.repo), "C20.R4")
 
+    # ---- R6: drawing a batch performs no write into the generator (frozen instances)
+    chk.rule("C20.R6", "get_batch of every generator kind on a frozen generator performs no write into it", floor=6)
+    from ..interp import freeze
+    G6 = GenEnv(chk.repo)
+    gens = {"DataGeneratorODE": lambda: G6.ode(rar=True), "CubicMeshPDEStatio": lambda: G6.statio(2, rar=True),
+            "CubicMeshPDEStatio[1D]": lambda: G6.statio(1), "CubicMeshPDENonStatio[paired]": lambda: G6.nonstatio(2, cartesian=False),
+            "DataGeneratorObservations": lambda: G6.obs(('nu',)), "DataGeneratorParameter": lambda: G6.param(('nu', 'th'))}
+    for name, mk in gens.items():
+        def go(mk=mk, name=name):
+            g = freeze(mk())
+            before = {k: v for k, v in g.fields.items()}
+            if name.startswith("CubicMeshPDENonStatio"):
+                for m_ in ("inside_batch", "border_batch", "temporal_batch"):
+                    getattr(g, m_)()
+            else:
+                g.get_batch()
+            for k, v in before.items():
+                if g.fields.get(k) is not v:
+                    raise Violation(f"{name}.{k}", "field rebound on the generator passed in", "untouched")
+            return "no write into the generator"
+        chk.run("C20.R6", f"jinns.data._DataGenerators:{name.split('[')[0]}.get_batch", {"generator": name}, go, construct=f"{name} purity")
+
     # ---- R2 / R3
     funcs = []
     imports = {}
